@@ -4,7 +4,8 @@
 From Coq Require Import List Arith ZArith Reals Lra Lia Bool.
 From TLV Require Import Base.Shape Base.PyList Base.Tensor Base.BigSum Base.Ops Model.Transforms
   Proofs.TransformsProofs Proofs.TransformsProofsR Proofs.TransformsProofsTT Proofs.TransformsProofsTucker
-  Proofs.TransformsProofsPf2 Proofs.TransformsProofsR2 Proofs.TransformsProofsFlip Proofs.TransformsProofsApi.
+  Proofs.TransformsProofsPf2 Proofs.TransformsProofsR2 Proofs.TransformsProofsFlip Proofs.TransformsProofsApi Proofs.TransformsProofsPermList
+  Proofs.TransformsProofsTTM Proofs.TransformsProofsOrtho Proofs.TransformsProofsNegMode Proofs.TransformsProofsAlign.
 Import ListNotations.
 
 (* --- cp_permute_factors: any column permutation applied to all factors and the weights *)
@@ -319,6 +320,121 @@ Theorem C04_svd_compress_decompress_roundtrip : forall (F : Type) (Op : fops F),
 Proof. exact @compress_decompress_roundtrip. Qed.
 Print Assumptions C04_svd_compress_decompress_roundtrip.
 
+(* ================================================================== round 3 *)
+(* --- cp_permute_factors: the output IS the assignment applied to the weights and to every column of every factor
+   (the assignment is the answer of the linear-sum-assignment oracle), single tensor and list form *)
+Theorem C04_cp_permute_spec : forall (F : Type) (Op : fops F) (p : list nat) (w : list F) (fs : list (mat F)) w' fs',
+  cp_permute Op p w fs = Ok (w', fs') ->
+  length p = length w /\ length w' = length w /\ length fs' = length fs /\
+  forall r, r < length w ->
+    vget Op w' r = vget Op w (nth r p 0) /\
+    forall k i, k < length fs -> mget Op (nth k fs' []) i r = mget Op (nth k fs []) i (nth r p 0).
+Proof. exact @cp_permute_spec. Qed.
+Print Assumptions C04_cp_permute_spec.
+
+Theorem C04_cp_permute_list_spec : forall (F : Type) (Op : fops F) (ps : list (list nat)) (ts outs : list (list F * list (mat F))),
+  cp_permute_list Op ps ts = Ok outs ->
+  length outs = length ts /\ length ps = length ts /\
+  forall i, i < length ts ->
+    cp_permute Op (nth i ps []) (fst (nth i ts ([], []))) (snd (nth i ts ([], []))) = Ok (nth i outs ([], [])).
+Proof. exact @cp_permute_list_spec. Qed.
+Print Assumptions C04_cp_permute_list_spec.
+
+Theorem C04_cp_permute_list_entry : forall (F : Type) (Op : fops F), ring_theory (f0 Op) (f1 Op) (fadd Op) (fmul Op) (fsub Op) (fopp Op) (@eq F) ->
+  forall (ps : list (list nat)) (ts outs : list (list F * list (mat F))) (i : nat) (idx : list nat),
+  cp_permute_list Op ps ts = Ok outs -> i < length ts ->
+  cp_entry Op (fst (nth i outs ([], []))) (snd (nth i outs ([], []))) idx =
+  cp_entry Op (fst (nth i ts ([], []))) (snd (nth i ts ([], []))) idx.
+Proof. exact @cp_permute_list_entry. Qed.
+Print Assumptions C04_cp_permute_list_entry.
+
+(* aligned component order: the brute-force check used on the oracle's assignment is sound for every rank:
+   an accepted assignment is a permutation and no permutation has a larger total congruence (up to tol) *)
+Theorem C04_assignment_optimal_sound : forall (F : Type) (Op : fops F) (tol : F) (n : nat) (M : nat -> nat -> F) (p : list nat),
+  is_optimalb Op tol n M p = true ->
+  is_permb n p = true /\
+  forall q, is_permb n q = true -> fleb Op (assign_score Op M q) (fadd Op (assign_score Op M p) tol) = true.
+Proof. exact @is_optimalb_sound. Qed.
+Print Assumptions C04_assignment_optimal_sound.
+
+(* --- orthonormal projections: ortho n P  <->  the first n columns of P are orthonormal (P^T P = I) *)
+Theorem C04_ortho_matmul : forall (F : Type) (Op : fops F), ring_theory (f0 Op) (f1 Op) (fadd Op) (fmul Op) (fsub Op) (fopp Op) (@eq F) ->
+  forall (n : nat) (Lm P : mat F), ortho Op (length P) Lm -> ortho Op n P -> n <= ncols P -> ortho Op n (matmul Op Lm P).
+Proof. exact @ortho_matmul. Qed.
+Print Assumptions C04_ortho_matmul.
+
+Theorem C04_from_cptensor_ortho : forall (F : Type) (Op : fops F) (n : nat) (Qm Rm : mat F) (w : list F) (A B C : mat F) w' fs' Ps (i : nat),
+  from_cp Qm Rm w A B C = (w', fs', Ps) -> i < length A -> ortho Op n Qm -> ortho Op n (nth i Ps []).
+Proof. exact @from_cp_ortho. Qed.
+Print Assumptions C04_from_cptensor_ortho.
+
+Theorem C04_svd_decompress_ortho : forall (F : Type) (Op : fops F), ring_theory (f0 Op) (f1 Op) (fadd Op) (fmul Op) (fsub Op) (fopp Op) (@eq F) ->
+  forall (n : nat) (w : list F) (A B C : mat F) (Ps : list (mat F)) (Ls : list (option (mat F))) w' fs' Ps' (i : nat),
+  svd_decompress Op w A B C Ps Ls = Ok (w', fs', Ps') -> i < length Ps ->
+  ortho Op n (nth i Ps []) -> n <= ncols (nth i Ps []) ->
+  (forall Lm, nth i Ls None = Some Lm -> ortho Op (length (nth i Ps [])) Lm) ->
+  ortho Op n (nth i Ps' []).
+Proof. exact @svd_decompress_ortho. Qed.
+Print Assumptions C04_svd_decompress_ortho.
+
+(* --- dense form of a TT-matrix (cores (r, m, n, r'), tensor of shape (m_1..m_N, n_1..n_N)) is unchanged by pad_tt_rank *)
+Theorem C04_pad_tt_rank_ttm_entry : forall (F : Type) (Op : fops F), ring_theory (f0 Op) (f1 Op) (fadd Op) (fmul Op) (fsub Op) (fopp Op) (@eq F) ->
+  forall (cores : list (tensor F)) (npad : nat) (pb : bool) (cores' : list (tensor F)) (idx : list nat) (r : nat),
+  pad_tt_rank Op cores npad pb = Ok cores' -> cores <> [] -> chain_ok r cores -> order4 cores -> inb (ttm_shape cores) idx ->
+  0 < r -> 0 < last_r2 r cores ->
+  ttm_entry Op cores' idx = ttm_entry Op cores idx.
+Proof. exact @pad_ttm_entry. Qed.
+Print Assumptions C04_pad_tt_rank_ttm_entry.
+
+(* --- Python mode numbers (-N <= mode < N): the entry points act like the non-negative mode k = norm_mode N mode,
+   so the mode-product theorems above apply; for a negative contraction factor 0 absorbs the vector, same represented tensor *)
+Theorem C04_cp_mode_dot_z_matrix : forall (F : Type) (Op : fops F) (w : list F) (fs : list (mat F)) (M : mat F) (mode : Z) (kd : bool) w' fs',
+  cp_mode_dot_z Op w fs (OpMat M) mode kd = Ok (w', fs') ->
+  exists k, norm_mode (length fs) mode = Some k /\ cp_mode_dot Op w fs (OpMat M) k kd = Ok (w', fs').
+Proof. exact @cp_mode_dot_z_matrix. Qed.
+Print Assumptions C04_cp_mode_dot_z_matrix.
+
+Theorem C04_cp_mode_dot_z_vector_keep : forall (F : Type) (Op : fops F) (w : list F) (fs : list (mat F)) (v : list F) (mode : Z) w' fs',
+  cp_mode_dot_z Op w fs (OpVec v) mode true = Ok (w', fs') ->
+  exists k, norm_mode (length fs) mode = Some k /\ cp_mode_dot Op w fs (OpVec v) k true = Ok (w', fs').
+Proof. exact @cp_mode_dot_z_vector_keep. Qed.
+Print Assumptions C04_cp_mode_dot_z_vector_keep.
+
+Theorem C04_cp_mode_dot_z_vector_contract : forall (F : Type) (Op : fops F), ring_theory (f0 Op) (f1 Op) (fadd Op) (fmul Op) (fsub Op) (fopp Op) (@eq F) ->
+  forall (w : list F) (fs : list (mat F)) (v : list F) (mode : Z) w' fs' (idx' : list nat),
+  cp_mode_dot_z Op w fs (OpVec v) mode false = Ok (w', fs') -> S (length idx') = length fs ->
+  exists k, norm_mode (length fs) mode = Some k /\
+    (length w <= ncols (nth k fs []) ->
+     cp_shape fs' = remove_nth k (cp_shape fs) /\
+     cp_entry Op w' fs' idx' =
+     sumn Op (length (nth k fs [])) (fun i => fmul Op (vget Op v i) (cp_entry Op w fs (insert_at k i idx')))).
+Proof. exact @cp_mode_dot_z_vector_contract. Qed.
+Print Assumptions C04_cp_mode_dot_z_vector_contract.
+
+Theorem C04_tucker_mode_dot_z : forall (F : Type) (Op : fops F) (core : tensor F) (fs : list (mat F)) (x : operand) (mode : Z) (kd : bool) r,
+  tucker_mode_dot_z Op core fs x mode kd = Ok r ->
+  exists k, norm_mode (length fs) mode = Some k /\ tucker_mode_dot Op core fs x k kd = Ok r.
+Proof. exact @tucker_mode_dot_z_spec. Qed.
+Print Assumptions C04_tucker_mode_dot_z.
+
+(* cp_flip_sign with a negative target mode never skips the target in its loop (it is multiplied by its own signs twice);
+   the represented tensor is preserved all the same *)
+Theorem C04_cp_flip_sign_z_entry : forall (F : Type) (Op : fops F), ring_theory (f0 Op) (f1 Op) (fadd Op) (fmul Op) (fsub Op) (fopp Op) (@eq F) ->
+  forall summ : list F -> F,
+  (forall x, fmul Op (colsign Op x) (colsign Op x) = f1 Op) ->
+  (forall x, fmul Op (colsign Op x) (fabs Op x) = x) ->
+  forall (w : list F) (fs : list (mat F)) (mode : Z) w' fs' (idx : list nat),
+  cp_flip_sign_z Op summ w fs mode = Ok (w', fs') -> length idx = length fs ->
+  cp_entry Op w' fs' idx = cp_entry Op w fs idx.
+Proof. exact @cp_flip_sign_z_entry. Qed.
+Print Assumptions C04_cp_flip_sign_z_entry.
+
+Theorem C04_cp_flip_sign_z_entry_R : forall (summ : list R -> R) (w : list R) (fs : list (mat R)) (mode : Z) w' fs' idx,
+  cp_flip_sign_z Rops summ w fs mode = Ok (w', fs') -> length idx = length fs ->
+  cp_entry Rops w' fs' idx = cp_entry Rops w fs idx.
+Proof. exact (fun summ => cp_flip_sign_z_entry Rops Rops_ring summ colsign_sq_R colsign_abs_R). Qed.
+Print Assumptions C04_cp_flip_sign_z_entry_R.
+
 (* --- non-vacuity: the hypotheses are satisfiable and the model computes *)
 Example C04_nonvacuous_ring :
   cp_permute Zops [1; 0] [2; 3]%Z [[[1; 2]; [3; 4]]; [[5; 6]; [7; 8]]]%Z
@@ -382,3 +498,17 @@ Example C04_nonvacuous_pf2 :
     = ([[2; 0]; [0; 1]]%Z, Some [[1; 0]; [0; 1]; [0; 0]]%Z) /\
   count_kept Zops 0%Z [2; 1]%Z = 2.
 Proof. cbv zeta. repeat split; vm_compute; reflexivity. Qed.
+
+Example C04_nonvacuous_round3 :
+  cp_permute_list Zops [[1; 0]; [0; 1]] [([2; 3]%Z, [[[1; 2]; [3; 4]]]%Z); ([5; 7]%Z, [[[1; 0]; [0; 1]]]%Z)]
+    = Ok [([3; 2]%Z, [[[2; 1]; [4; 3]]]%Z); ([5; 7]%Z, [[[1; 0]; [0; 1]]]%Z)] /\
+  norm_mode 3 (-1) = Some 2 /\ norm_mode 3 (-3) = Some 0 /\ norm_mode 3 3 = None /\ norm_mode 3 (-4) = None /\
+  cp_mode_dot_z Zops [1; 1]%Z [[[1; 2]; [3; 4]]; [[5; 6]; [7; 8]]]%Z (OpVec [1; 1]%Z) (-1) false
+    = Ok ([1; 1]%Z, [[[12; 28]; [36; 56]]]%Z) /\
+  cp_flip_sign_z Zops (col_sum Zops) [-2; 1]%Z [[[1; -1]; [-3; 1]]; [[-5; 1]; [-7; 2]]]%Z (-1)
+    = Ok ([2; 1]%Z, [[[-1; -1]; [3; 1]]; [[-5; 1]; [-7; 2]]]%Z) /\
+  is_optimalb Zops 0%Z 3 (fun i j => nth j (nth i [[1; 5; 2]; [7; 1; 1]; [1; 2; 9]]%Z []) 0%Z) [1; 0; 2] = true /\
+  is_optimalb Zops 0%Z 3 (fun i j => nth j (nth i [[1; 5; 2]; [7; 1; 1]; [1; 2; 9]]%Z []) 0%Z) [0; 1; 2] = false /\
+  orthob Zops Z.eqb 2 [[0; 1]; [-1; 0]; [0; 0]]%Z = true /\
+  ttm_entry Zops [mk [1; 1; 2; 2] [1; 2; 3; 4]%Z; mk [2; 1; 1; 1] [5; 6]%Z] [0; 0; 1; 0] = 39%Z.
+Proof. repeat split; vm_compute; reflexivity. Qed.
